@@ -63,6 +63,15 @@ func runC01(p *Program, e *Engine, r *Result, tier string) {
 	// (8) Add always asks the kernel: a successful Add passed inotify_add_watch (a path that is listed may meanwhile
 	// name another file; trusting the table would leave the new file unwatched) - shared with C04.8
 	c04AddAsksKernel(a, "C01.8")
+	// (9) the reader stops delivering only when the watcher is closed (shared with C13.3)
+	n0 := len(a.R.Obligations)
+	c13Reader(a)
+	for i := n0; i < len(a.R.Obligations); i++ {
+		if strings.HasPrefix(a.R.Obligations[i].Rule, "C13.3") {
+			a.R.Obligations[i].Key = "C01.9|" + strings.TrimPrefix(a.R.Obligations[i].Key, a.R.Obligations[i].Rule+"|")
+			a.R.Obligations[i].Rule = "C01.9"
+		}
+	}
 }
 
 func sizeofRecord(a *An, df *DecodeFacts) int64 {
